@@ -228,11 +228,15 @@ class C16(Check):
         "durability of the acknowledged commit itself (root directory fsync after the flip) is measured, not judged",
         "S3 durability is the provider's",
     ]
-    require = {"flips_checked": 8, "reachable_files_checked": 40, "images_opened": 10, "trace_events": 200}
+    require = {"flips_checked": 8, "reachable_files_checked": 40, "images_opened": 10, "trace_events": 200,
+               "fsync_faults_fired": 4}
 
     def gen_cases(self, tier: str, seed: int):
         yield {"variant": "a"}
         yield {"variant": "b"}
+        # an fsync that fails (nothing flushed) on each kind of file during a commit
+        for kind in ("metadata", "manifest", "manifest_list", "data", "hint", "marker"):
+            yield {"variant": f"fault:{kind}"}
 
     def run_case(self, case: Any, res: CaseResult, tier: str) -> None:
         import datashard as ds
@@ -252,6 +256,14 @@ class C16(Check):
             relevant = [e for e in events if (e.fdpath and e.fdpath.startswith(root)) or any(x.startswith(root) for x in e.paths)
                         or (e.call == "write" and e.data and e.data.startswith(b"MARK "))]
             res.count("trace_events", len(relevant))
+            if case["variant"].startswith("fault:"):
+                marks = [e.data.decode(errors="replace").strip() for e in relevant
+                         if e.call == "write" and e.data and e.data.startswith(b"MARK ")]
+                if "MARK fault_fired" not in marks:
+                    res.inconclusive.append(f"fsync fault for {case['variant']} never fired")
+                    return
+                res.count("fsync_faults_fired")
+                res.count("faulted_appends_acked" if any("ACKED" in m for m in marks) else "faulted_appends_raised")
             model = PowerLossModel(root)
             blobs = reader.Blobs.local(root)
             nflip = 0
